@@ -15,7 +15,8 @@ Part 1  keys and values of `_measurament`            (`keys_exact`, `keys_first_
 Part 2  normalisation                                  (`values_nonneg_sum_one`, `nonfinite_is_assertion`, `nan_is_assertion`)
 Part 3  argument validation as decision logic          (`rejects_*`, `rejects_any_combination`, `accepts_valid`,
                                                        `accepts_iff_valid`, `validate_decision`, `rejection_classes`)
-Part 4  the whole run                                  (`run_valid_distribution`, `run_zero_total_is_assertion`)
+Part 4  the whole run                                  (`run_valid_distribution`, `run_zero_total_is_assertion`,
+                                                       `run_every_shot_count`)
 Part 5  the pinned tree before repair D20              (`unrepaired_agrees_on_arrays`, `unrepaired_non_array_psi0`)
 -/
 namespace QG.C14
@@ -621,6 +622,37 @@ theorem run_zero_total_is_assertion (circ : CircArg) (psi0 shots device nqubit :
   simp only [preprocessCheck_ok data nqubit nq hv.2.2.2.1 hnq]
   exact nonfinite_is_assertion _ sim h
 
+/-- **For every shot count.**  `_perform_simulation` adds the per-shot vectors and divides by `shots`.  If each shot
+returns a non-negative vector of length `2^nqubit` (Born rule: squares of moduli) and at least one shot has a non-zero
+state, then for consistent arguments the run returns a dict whose values are `≥ 0` and sum to 1 — for every number of
+shots `≥ 1`, every gate set (unitary or not) and every circuit class. -/
+theorem run_every_shot_count (circ : CircArg) (psi0 shots device nqubit : PyVal) (data : List Instr) (nq : Nat)
+    (hv : ValidArgs circ psi0 shots device nqubit data nq) (hnq : nq = (processLayout data).1.length)
+    (results : List (List K)) (hshots : asInt? shots = some (results.length : Int))
+    (hlen : ∀ r ∈ results, r.length = 2 ^ nq) (hnn : ∀ r ∈ results, ∀ x ∈ r, 0 ≤ x)
+    (hpos : ∃ r ∈ results, 0 < r.sum) :
+    ∃ out, run (fieldNum K) circ psi0 shots device nqubit
+        (meanOfShots (fieldNum K) (2 ^ nq) (results.length : K) results) = .ok out ∧
+      (∀ p ∈ out, 0 ≤ p.2) ∧ (out.map Prod.snd).sum = 1 := by
+  obtain ⟨r0, hr0, hr0pos⟩ := hpos
+  have hne : 0 < results.length := by
+    obtain ⟨s, hs', hs1⟩ := hv.2.2.1
+    rw [hshots] at hs'
+    have := Option.some.inj hs'
+    omega
+  have hs : (0 : K) < (results.length : K) := by exact_mod_cast hne
+  obtain ⟨h1, h2, h3⟩ := meanOfShots_spec (2 ^ nq) (results.length : K) hs results hlen hnn
+  have hsum : 0 < (results.map List.sum).sum := by
+    have hall : ∀ x ∈ results.map List.sum, 0 ≤ x := by
+      intro x hx
+      obtain ⟨r, hr, rfl⟩ := List.mem_map.mp hx
+      exact List.sum_nonneg (hnn r hr)
+    have hmem : r0.sum ∈ results.map List.sum := List.mem_map.mpr ⟨r0, hr0, rfl⟩
+    exact lt_of_lt_of_le hr0pos (List.single_le_sum hall _ hmem)
+  obtain ⟨out, ho, hnn', hs1, _⟩ := run_valid_distribution circ psi0 shots device nqubit data nq hv hnq
+    (meanOfShots (fieldNum K) (2 ^ nq) (results.length : K) results) h1 h2 (by rw [h3]; exact div_pos hsum hs)
+  exact ⟨out, ho, hnn', hs1⟩
+
 end run
 
 /-! ## Part 5 — the pinned tree before repair D20 -/
@@ -665,6 +697,18 @@ example : ValidArgs (.qc exData) (.ndarray [4]) (.int 5) (.dict (.sized 10)) (.i
     2 = (processLayout exData).1.length := by
   refine ⟨⟨rfl, by decide, ⟨5, rfl, by decide⟩, rfl, rfl, by decide, 10, rfl, by decide⟩,
     ⟨rfl, by decide, ⟨1, rfl, by decide⟩, rfl, rfl, by decide, 2, rfl, by decide⟩, by decide⟩
+
+/-- hypotheses of `run_every_shot_count`: three shots on two qubits -/
+example : let results : List (List ℚ) := [[1, 0, 0, 0], [0, 1/2, 1/2, 0], [1, 0, 0, 0]]
+    asInt? (.int 3) = some (results.length : Int) ∧ (∀ r ∈ results, r.length = 2 ^ 2) ∧
+    (∀ r ∈ results, ∀ x ∈ r, 0 ≤ x) ∧ (∃ r ∈ results, 0 < r.sum) ∧
+    meanOfShots (fieldNum ℚ) 4 3 results = [2/3, 1/6, 1/6, 0] := by
+  refine ⟨rfl, by decide, ?_, ⟨[1, 0, 0, 0], by simp, by norm_num⟩, ?_⟩
+  · intro r hr x hx
+    simp only [List.mem_cons, List.not_mem_nil, or_false] at hr
+    rcases hr with rfl | rfl | rfl <;> simp at hx <;> rcases hx with rfl | rfl | rfl <;> norm_num
+  · simp [meanOfShots, addVec, fieldNum]
+    norm_num
 
 /-- every named defect is inhabited (one concrete instance each) -/
 example : NoMeasurement [.gate [0]] ∧ ShotsNotInteger (.npInt 5) ∧ ShotsNotInteger .float ∧
